@@ -376,9 +376,16 @@ fn gen_node(rng: &mut Rng, cfg: &GenCfg, depth: usize, next_id: &mut usize, coun
     match kind {
         0 => Node::Leaf(gen_scalar(rng, counter, cfg.sentinels)),
         1 => {
-            let n = rng.below(cfg.max_fanout + 1);
+            // now and then an array with more than ten elements (indices 1 and 10.. share a prefix)
+            let long = depth >= 1 && rng.chance(1, 14);
+            let n = if long { 11 + rng.below(3) } else { rng.below(cfg.max_fanout + 1) };
             let mut xs = Vec::new();
             for _ in 0..n {
+                if long {
+                    let mark = gen_mark(rng, cfg, next_id);
+                    xs.push(Elem { mark, node: Node::Leaf(gen_scalar(rng, counter, cfg.sentinels)) });
+                    continue;
+                }
                 if cfg.reference && rng.chance(1, 8) {
                     xs.push(Elem { mark: Mark::Decoy(fake_digest(rng)), node: Node::Leaf(Value::Null) });
                     continue;
@@ -402,7 +409,13 @@ fn gen_node(rng: &mut Rng, cfg: &GenCfg, depth: usize, next_id: &mut usize, coun
             let n = if force_obj { 1 + rng.below(cfg.max_fanout) } else { rng.below(cfg.max_fanout + 1) };
             let mut ms: Vec<Mem> = Vec::new();
             for _ in 0..n {
-                let key = gen_key(rng, cfg, counter);
+                let mut key = gen_key(rng, cfg, counter);
+                // one member in six is named after a sibling plus a suffix (`name`, `name_x`): a
+                // string prefix that is not an ancestor
+                if !ms.is_empty() && rng.chance(1, 6) {
+                    let base = ms[rng.below(ms.len())].key.clone();
+                    key = if cfg.sentinels { *counter += 1; format!("{}_S*{}*", base, counter) } else { format!("{}{}", base, rng.pick(&["_x", "0", "1", " ", "x"])) };
+                }
                 if ms.iter().any(|m| m.key == key) {
                     continue;
                 }
